@@ -382,6 +382,11 @@ pub fn analyze(case: &Case, run: &Run) -> Analysis {
         a.lin_skipped = true;
     } else {
         a.lin_checked = true;
+        // setup and sweep run on the controller without a scheduler callback, so their evictions
+        // leave no trace: a capacity below the roomy one always means "may evict"
+        if case.sys == Sys::Memory && case.cfg.max_entries < crate::sys::ROOMY {
+            a.eviction = true;
+        }
         let model = MapModel { sys: case.sys, may_evict: a.eviction };
         let timed: Vec<Timed<MCall>> =
             calls.iter().map(|c| Timed { call: MCall { op: c.op, res: c.res.clone(), id: val_id(c.task, c.opi) }, inv: c.inv, ret: c.ret }).collect();
